@@ -56,7 +56,7 @@ def InvG (s : State) : Prop :=
 
 /-- closing tactic for one branch of `step_cases` -/
 macro "step_close" : tactic =>
-  `(tactic| ((try simp only [updN_apply, isFinished_iff, workersDone_iff, PC.active_iff,
+  `(tactic| ((try simp only [updN_apply_ob, isFinished_iff_ob, workersDone_iff, PC.active_iff,
       InvN, InvL, InvR, InvB, InvT, InvW, InvQ, InvA, InvE1, InvC2, Blk, InvO, InvX, InvG] at *) <;> grind))
 
 theorem step_canceled_mono (hs : step c s a = some s') (h : s'.canceled = false) : s.canceled = false := by
@@ -168,7 +168,7 @@ theorem lastErr_new (hs : step c s a = some s') (hT : InvT s) (hR : InvR c s)
 
 theorem invG_step (hs : step c s a = some s') (ih : InvG s) : InvG s' := by
   intro hc j
-  have hr := isReady_label c s
+  have hr := isReady_label_ob c s
   step_cases a hs <;> (try simp only [afterPC] at *) <;> step_close
 
 theorem invG (hr : Reach c s) : InvG s := by
